@@ -69,7 +69,9 @@ def distr : Expr → Option String → Expr × Option String
   | .nonterm n l s, pend => (.nonterm n l s, pend)
   | .cmd c a l s, pend => (.cmd c a l s, pend)
   | .seq cs s, pend => let (cs', p) := distrSeq cs pend; (.seq cs' s, p)
-  | .alt cs s, pend => (.alt (distrAlt cs pend) s, pend)
+  | .alt cs s, pend =>
+    let (cs', allSpent) := distrAlt cs pend
+    (.alt cs' s, if allSpent then none else pend)
   | .opt c s, pend => let (c', p) := distr c pend; (.opt c' s, p)
   | .many1 c s, pend => let (c', p) := distr c pend; (.many1 c' s, p)
   | .sub c l s, pend => let (c', p) := distr c pend; (.sub c' l s, p)
@@ -81,10 +83,14 @@ def distrSeq : ExprL → Option String → ExprL × Option String
     let (e', p) := distr e pend
     let (es', p') := distrSeq es p
     (.cons e' es', p')
-/-- each child gets its own clone of the pending description -/
-def distrAlt : ExprL → Option String → ExprL
-  | .nil, _ => .nil
-  | .cons e es, pend => .cons (distr e pend).1 (distrAlt es pend)
+/-- each child gets its own copy of the pending description; the flag says whether every child
+used its copy up (`all_spent`) -/
+def distrAlt : ExprL → Option String → ExprL × Bool
+  | .nil, _ => (.nil, true)
+  | .cons e es, pend =>
+    let (e', p) := distr e pend
+    let (es', all) := distrAlt es pend
+    (.cons e' es', p.isNone && all)
 end
 
 def distribute (e : Expr) : Expr := (distr e none).1
@@ -393,21 +399,18 @@ def collapseL : ExprL → ExprL
 end
 
 mutual
-/-- structural equality of trees: stands for `child == new_child` on arena ids in the code, which
-holds exactly when the pass changed nothing below -/
+/-- `do_propagate_fallback_levels`: every leaf and every subword gets the index of the branch of
+the innermost enclosing `||` -/
 def propagate : Expr → Nat → Expr
   | .term t d _ s, lvl => .term t d lvl s
   | .fb cs s, _ => .fb (propagateFb cs 0) s
-  | .nonterm n l s, _ => .nonterm n l s
-  | .cmd c a l s, _ => .cmd c a l s
+  | .nonterm n _ s, lvl => .nonterm n lvl s
+  | .cmd c a _ s, lvl => .cmd c a lvl s
   | .seq cs s, lvl => .seq (propagateL cs lvl) s
   | .alt cs s, lvl => .alt (propagateL cs lvl) s
   | .opt c s, lvl => .opt (propagate c lvl) s
   | .many1 c s, lvl => .many1 (propagate c lvl) s
-  | .sub c l s, lvl =>
-    let c' := propagate c lvl
-    -- the subword's own level is only updated when its child changed
-    if c' == c then .sub c l s else .sub c' lvl s
+  | .sub c _ s, lvl => .sub (propagate c lvl) lvl s
   | .dd c d s, _ => .dd c d s
 def propagateL : ExprL → Nat → ExprL
   | .nil, _ => .nil
